@@ -21,6 +21,7 @@ TYPES: dict[str, dict[str, tuple[str, str]]] = {
         'P': ('a3', 'v4'), 'Pt': ('v4', 'a3'), 'Pu': ('a3', 'a2'), 'Put': ('a2', 'a3'),
         'Ps': ('a3', 'a2'), 'Pst': ('a2', 'a3'), 'Pm': ('a3', 'a2'), 'Pmt': ('a2', 'a3'),
         'Pk': ('a3', 'a2'), 'Pkt': ('a2', 'a3'), 'Pn': ('v4', 'v4'),
+        'Pp': ('a3', 'a3'), 'Pr': ('a3', 'a3'), 'Pa': ('a3', 'v4'), 'Pat': ('v4', 'a3'),
         'Rv': ('m22', 'v4'), 'Rvt': ('v4', 'm22'), 'Rs': ('v4', 'm22'), 'Rst': ('m22', 'v4'),
         'Rn': ('m22', 'm22'), 'M01': ('m22', 'm22'), 'M10': ('m22', 'm22'), 'Mx': ('m22', 'm22'),
         'D4': ('v4', 'v4'), 'D3': ('a3', 'a3'), 'k3': ('a3', 'a3'), 'k4': ('v4', 'v4'), 'I4': ('v4', 'v4'),
@@ -116,10 +117,15 @@ def build(domain: str) -> dict:
         Ps = IndexOperator(slice(0, 2), in_structure=a3, out_structure=a2)
         Pm = IndexOperator(jnp.array([True, False, True]), in_structure=a3, out_structure=a2)
         Pk = PackOperator(jnp.array([False, True, True]), a3)
+        # shape-preserving selections that are NOT the identity, and an index whose negative entries alias non-negative ones
+        Pp = IndexOperator(jnp.array([2, 0, 1]), in_structure=a3, out_structure=a3)
+        Pr = IndexOperator(slice(None, None, -1), in_structure=a3, out_structure=a3)
+        Pa = IndexOperator(jnp.array([0, -3, 1, -1]), in_structure=a3, out_structure=v4)
         Rv = RavelOperator(in_structure=m22)
         Rs = ReshapeOperator((2, 2), in_structure=v4)
         atoms = {
             'P': P, 'Pt': P.T, 'Pu': Pu, 'Put': Pu.T, 'Ps': Ps, 'Pst': Ps.T, 'Pm': Pm, 'Pmt': Pm.T,
+            'Pp': Pp, 'Pr': Pr, 'Pa': Pa, 'Pat': Pa.T,
             'Pk': Pk, 'Pkt': Pk.T, 'Pn': IndexOperator((slice(None),), in_structure=v4, out_structure=v4),
             'Rv': Rv, 'Rvt': Rv.T, 'Rs': Rs, 'Rst': Rs.T, 'Rn': ReshapeOperator((2, -1), in_structure=m22),
             'M01': MoveAxisOperator(0, 1, in_structure=m22), 'M10': MoveAxisOperator(1, 0, in_structure=m22),
